@@ -12,7 +12,7 @@ selectors as well.  Obligation on every feasible path: the call returns
 counterexample, reported with the raising function.
 
 Part 'default-strategy': the full local x remote script product under the
-default strategy.  Part 'strategy-product': 38 conflict-prone script pairs
+default strategy.  Part 'strategy-product': 40 conflict-prone script pairs
 under all 4 x 5 x 7 x 2 CLI combinations plus 'mergetool', x 3 back ends.
 Non-trivial = at least one decision.
 """
